@@ -17,3 +17,29 @@ U("compare_double", "cjson", "harness/compare_double.c", enforce="compare_double
   note="bit-precise IEEE-754 over all pairs of doubles")
 U("compare_double_sym", "cjson", "harness/compare_double_sym.c", no_contract=True, shape="U", props=["C12"], covers=1, funcs=["compare_double"],
   note="symmetry/reflexivity lemma on the real function, loop-free => complete")
+U("buffer_skip_whitespace", "cjson", "harness/buffer_skip_whitespace.c", enforce="buffer_skip_whitespace", shape="U", loops=True,
+  props=["C01", "C02", "C03", "C10", "C14", "C20"], covers=3, expect_loop_obligations=1,
+  note="buffers of every length <= 2^47 through the loop contract")
+U("skip_utf8_bom", "cjson", "harness/skip_utf8_bom.c", enforce="skip_utf8_bom", shape="U", props=["C01", "C02", "C03", "C14", "C20"], covers=3, unwind=6)
+U("parse_number", "cjson", "harness/parse_number.c", enforce="parse_number", shape="U", tiers=(),
+  props=["C01", "C02", "C03", "C10", "C14", "C20"], covers=3, unwind=66, timeout=(900, 1800),
+  note="copy loop bounded by the source constant 63 and the strtod model's scan of the 64-byte stack buffer: complete unwinding (a loop contract is not usable: the loop is left by `goto`, which dfcc's loop instrumentation mishandles)")
+U("parse_value", "cjson", "harness/parse_value.c", enforce="parse_value", shape="U", props=["C01", "C02", "C03", "C08", "C14", "C20"], covers=4, unwind=6,
+  replace=["parse_string", "parse_number/parse_number_cv", "parse_array", "parse_object"],
+  note="dispatch proved for every buffer; delegates replaced by contracts (callee views)")
+U("parse_number_plain", "cjson", "harness/parse_number_plain.c", no_contract=True, shape="U", funcs=["parse_number"],
+  props=["C01", "C02", "C03", "C10"], covers=3, unwind=66, timeout=(900, 1800),
+  note="complete unwinding of the 63-byte copy loop without dfcc; pre/post stated by the harness")
+U("cJSON_ParseWithLengthOpts", "cjson", "harness/cJSON_ParseWithLengthOpts.c", enforce="cJSON_ParseWithLengthOpts", shape="U", loops=True,
+  expect_loop_obligations=1, props=["C10", "C01", "C02", "C03", "C08", "C14", "C20"], covers=5, unwind=6,
+  replace=["parse_value", "cJSON_Delete"], timeout=(600, 1800),
+  note="all buffers/lengths, both flags, with and without return_parse_end, both hook configurations, allocator may fail")
+U("cJSON_ParseWithOpts", "cjson", "harness/cJSON_ParseWithOpts.c", enforce="cJSON_ParseWithOpts", shape="U", loops=True, expect_loop_obligations=1,
+  props=["C10", "C01", "C02", "C14", "C20"], covers=3, replace=["cJSON_ParseWithLengthOpts"],
+  note="strings of every length (strlen model with loop contract); callee replaced by its proved contract + ghost call log")
+U("cJSON_Parse", "cjson", "harness/cJSON_Parse.c", enforce="cJSON_Parse", shape="U", props=["C01", "C02", "C14", "C20"], covers=2,
+  replace=["cJSON_ParseWithOpts"], note="forwarding proved against the logged callee contract")
+U("cJSON_ParseWithLength", "cjson", "harness/cJSON_ParseWithLength.c", enforce="cJSON_ParseWithLength", shape="U", props=["C01", "C02", "C14", "C20"], covers=2,
+  replace=["cJSON_ParseWithLengthOpts"])
+U("cJSON_GetErrorPtr", "cjson", "harness/cJSON_GetErrorPtr.c", enforce="cJSON_GetErrorPtr", shape="U", props=["C10", "C20"], covers=2,
+  checks_off=["--pointer-overflow-check"], note="pointer-overflow check off: the code forms NULL + 0 after a successful parse (benign, but flagged by CBMC)")
